@@ -7,8 +7,12 @@ pairs exist and which measurements make up each point's numerator and denominato
 theorems of Proofs/C18.lean hold); each clause names the shape it excludes:
   W1  a numerator hash has one (normalised) series stamp           — else hashToOrder keeps the last writer
   W2  the baseline results of one trial agree on the denominator hash — else the first one is kept
-  W3  within a table a series stamp has one (numerator hash, baseline hash) pair, where a trial
-      without baseline counts as baseline hash ""                    — else HashPairs keeps the first visited
+  W3  within a table a series stamp has one numerator hash and its trials' baseline hashes agree
+      wherever present (a trial without baseline has none: repaired in /repo 83c6e29)
+                                                                     — else HashPairs keeps the first visited
+  W3c (combine) a point's baseline hash must be heard: only the first-visited contribution of a
+      (benchmark, series) cell reaches HashPairs under DUPE_COMBINE, so some benchmark must have a
+      baseline in every trial of the point (or none anywhere)       — else "" or the hash by map order
   W4  (replace) duplicates of one point have distinct normalised experiment stamps — else first visited wins
   W5  distinct tables have distinct names (unit + blank-joined table values)      — else their order is arbitrary
 -/
@@ -33,17 +37,24 @@ def W2 (o : Opts) (evs : List Ev) : Bool :=
   allPairs (evs.filter (·.isDen o)) fun x y => x.trial ≠ y.trial || x.dh = y.dh
 def W3 (env : Env) (o : Opts) (evs : List Ev) : Bool :=
   allPairs (evs.filter (·.isNum o)) fun x y =>
-    x.tkey ≠ y.tkey || env.norm x.ser ≠ env.norm y.ser ||
-      (x.nh = y.nh && bhash o evs x.trial = bhash o evs y.trial)
+    x.tkey ≠ y.tkey || normD env x.ser ≠ normD env y.ser ||
+      (x.nh = y.nh && (bhash o evs x.trial = bhash o evs y.trial || bhash o evs x.trial = [] || bhash o evs y.trial = []))
+/-- combine only: a series point whose trials do not all lack a baseline has a benchmark all of whose
+trials (for that point) have one -/
+def W3c (env : Env) (o : Opts) (evs : List Ev) : Bool :=
+  let N := evs.filter (·.isNum o)
+  N.all fun x => bhash o evs x.trial = [] ||
+    N.any fun c => c.tkey = x.tkey && normD env c.ser = normD env x.ser &&
+      N.all fun d => d.tkey ≠ c.tkey || normD env d.ser ≠ normD env c.ser || d.bench ≠ c.bench || bhash o evs d.trial ≠ []
 def W4 (env : Env) (o : Opts) (evs : List Ev) : Bool :=
   allPairs (evs.filter (·.isNum o)) fun x y =>
-    x.tkey ≠ y.tkey || x.bench ≠ y.bench || env.norm x.ser ≠ env.norm y.ser || x.exp = y.exp ||
-      env.norm x.exp ≠ env.norm y.exp
+    x.tkey ≠ y.tkey || x.bench ≠ y.bench || normD env x.ser ≠ normD env y.ser || x.exp = y.exp ||
+      normD env x.exp ≠ normD env y.exp
 def W5 (evs : List Ev) : Bool :=
   allPairs evs fun x y => x.tkey = y.tkey || uString x.tkey ≠ uString y.tkey
 
 def WF (env : Env) (o : Opts) (pol : Policy) (evs : List Ev) : Bool :=
-  W1 env o evs && W2 o evs && W3 env o evs && (pol ≠ .replace || W4 env o evs) && W5 evs
+  W1 env o evs && W2 o evs && W3 env o evs && (pol ≠ .replace || W4 env o evs) && (pol ≠ .combine || W3c env o evs) && W5 evs
 
 def datesOk (env : Env) (o : Opts) (evs : List Ev) : Bool :=
   evs.all fun e => (env.norm e.exp).isSome && (!e.isNum o || (env.norm e.ser).isSome)
@@ -58,7 +69,10 @@ def specTable (env : Env) (o : Opts) (pol : Policy) (evs : List Ev) (t : TKey) :
   let series := sortSet env (N.map fun e => normD env e.ser)
   { unit := uString t, benches := benches, series := series,
     hp := series.map fun s =>
-      (s, (N.find? fun e => normD env e.ser = s).map fun e => (e.nh, bhash o evs e.trial)),
+      -- the numerator hash of the point and the baseline hash of any of its trials that has one
+      (s, (N.find? fun e => normD env e.ser = s).map fun e =>
+        (e.nh, ((N.filter fun x => normD env x.ser = s && bhash o evs x.trial ≠ []).head?.map
+                  fun x => bhash o evs x.trial).getD [])),
     points := benches.flatMap fun bn => series.filterMap fun s =>
       -- the numerator measurements of the point
       let X := N.filter fun e => e.bench = bn && normD env e.ser = s
